@@ -1,11 +1,19 @@
 import QuillModel.Extracted.Backend
 import QuillModel.Props.C05
+import QuillModel.Props.C06
 /-!
-Side-conditions of the ordering theorem (C05) for the facts extracted from the current headers
-(`BackendWorker.h`): the context cache is refreshed after `ts_now` is sampled (the `Cfg` flag the theorem carries as
-an explicit hypothesis), and the structural facts the model of the pass hard-wires — a record newer than `ts_now`
-stays in its queue, the read loop is the do-while with the capacity / hard-limit exits, the minimum front is chosen
-with a strict comparison, both batch loops are guarded by the pending check.
+Side-conditions of the ordering theorem (C05) and of the flush theorems (C06) for the facts extracted from the
+current headers (`BackendWorker.h`, `Logger.h`).
+
+C05: the context cache is refreshed after `ts_now` is sampled (the `Cfg` flag the theorem carries as an explicit
+hypothesis), and the structural facts the model of the pass hard-wires — a record newer than `ts_now` stays in its
+queue, the read loop is the do-while with the capacity / hard-limit exits, the minimum front is chosen with a
+strict comparison, both batch loops are guarded by the pending check.
+
+C06: the Flush branch of `_process_transit_event` flushes the active sinks unconditionally (interval 0) *before* it
+captures the flag; the flag is stored only after `pop_front`; every sink flush is wrapped in its own try/catch;
+`flush_log` retries a refused request in a loop, then waits on the flag; only `Event::Log` statements bump the
+failure counter. `flushOnlyValidLoggers = false` records that the flush also covers the sinks of loggers marked for removal and not erased yet (F12, repaired).
 -/
 namespace Obligations
 open Backend
@@ -24,5 +32,22 @@ theorem C05_extracted (s0 : BSt) (h0 : Start s0) (hg : s0.cfg.grace ≠ 0)
     (hp : GracePremise (runOps s0 ops)) :
     (((runOps s0 ops).popLog.reverse.filter (fun st => st.kind = .log ∧ st.lvl ≠ 9)).map (·.ts)).Pairwise (· ≤ ·) :=
   C05_statement_order s0 h0 hg (hc.trans backendB_order_structure.1) ops hp
+
+/-- what the C06 theorems (the shape of `processLowest` / `processEvent` / `flushSinks` / `enqFlow` in the model)
+    assume of the code, as extracted -/
+theorem backendB_flush_structure :
+    Extracted.flushBeforeFlag = true ∧ Extracted.flushIgnoresInterval = true ∧ Extracted.popBeforeFlag = true ∧
+    Extracted.perSinkFlushCatch = true ∧ Extracted.perEventCatch = true ∧ Extracted.flushRetries = true ∧
+    Extracted.flushWaitsOnFlag = true ∧ Extracted.countsOnlyLogEvents = true ∧
+    Extracted.flushOnlyValidLoggers = false := by decide
+
+/-- C06 (other threads) for the code as extracted -/
+theorem C06_extracted (s0 : BSt) (h0 : StartF s0) (hg : s0.cfg.grace ≠ 0)
+    (hc : s0.cfg.refreshAfterSample = Extracted.refreshAfterSample) (ops : List Op)
+    (hp : GracePremise (runOps s0 ops)) (i : Nat) (st : Stmt) (f : Nat)
+    (hst : st ∈ ((runOps s0 ops).th i).accepted) (hk : st.kind = .flush f) (hf : f ∈ (runOps s0 ops).flags)
+    (k : Nat) (r : Stmt) (hrk : r ∈ ((runOps s0 ops).th k).accepted)
+    (hlt : r.ts < st.ts) : r ∈ ((runOps s0 ops).th k).popped :=
+  C06_other_threads s0 h0 hg (hc.trans backendB_order_structure.1) ops hp i st f hst hk hf k r hrk hlt
 
 end Obligations
